@@ -121,6 +121,7 @@ SiteKey(site) == CASE site = "properties" -> "properties/p" [] site = "items" ->
 EscName(n) == CASE n = "a/b" -> "a~1b" [] n = "a~1b" -> "a~01b" [] n = "a~b" -> "a~0b" [] n = "a~0b" -> "a~00b" [] OTHER -> n
 RefText(r) == JoinSlash(r.path) \o (IF r.frag = <<>> THEN ""
                                    ELSE IF r.frag[1] = "#inl" THEN "#/" \o SiteKey(r.frag[2])
+                                   ELSE IF r.frag[1] = "pathItems" THEN "#/paths/~1" \o r.frag[2]      \* the path "/<name>" of the target document
                                    ELSE "#/components/" \o r.frag[1] \o "/" \o EscName(r.frag[2]))
 
 (* files other than the root that loading may read: targets of refs found in loaded documents *)
